@@ -120,6 +120,15 @@ where
 {
     let (ret, switch) = execution(|execution| {
         let ret = f(execution);
+
+        // The execution has already failed (a deadlock was detected: no thread
+        // is active any more) and this branch comes from a destructor that runs
+        // while the failure unwinds. There is nothing left to schedule, and
+        // scheduling would panic again and abort the process.
+        if !execution.threads.is_active() {
+            return (ret, false);
+        }
+
         let switch = execution.schedule();
 
         trace!(?switch, "branch");
